@@ -435,6 +435,8 @@ impl Value {
 
     #[inline(always)]
     pub fn resolve(expr: &Expression, ctx: &Context) -> ResolveResult {
+        #[cfg(feature = "verif-hooks")]
+        let _verif_guard = crate::verif::enter(expr);
         match &expr.expr {
             Expr::Literal(val) => Ok(val.clone().into()),
             Expr::Call(call) => {
